@@ -9,6 +9,8 @@ equation or ValueError, never a wrong set.
 """
 from __future__ import annotations
 
+import functools
+
 from packaging.specifiers import SpecifierSet
 from packaging.version import InvalidVersion, Version
 
@@ -97,28 +99,57 @@ def candidates(tree) -> list[Version]:
     return sorted(out)
 
 
+@functools.lru_cache(maxsize=4096)
+def _pkg_set(text: str) -> SpecifierSet:
+    return SpecifierSet(text)
+
+
 def _leaf_ref(text: str, v: Version):
     """packaging's answer for a leaf text (incl. dep-logic's || and <empty> syntax on top)."""
     if text == "<empty>":
         return False
     if "||" in text:
         return any(_leaf_ref(p, v) for p in text.split("||"))
-    return SpecifierSet(text).contains(v, prereleases=True)
+    return _pkg_set(text).contains(v, prereleases=True)
 
 
-def _ref(tree, v: Version) -> bool:
+def _ref(tree, v: Version, memo: dict | None = None) -> bool:
+    """The Boolean combination of packaging's answers over the leaves (memo: per case, keyed by node identity)."""
+    if memo is not None:
+        key = (id(tree), str(v))   # the spelling matters for === leaves (1.0 vs 1.0.0)
+        if key in memo:
+            return memo[key]
     k = tree[0]
     if k in ("leaf", "fss"):
-        return _leaf_ref(tree[1], v)
-    if k in ("any", "rany"):
-        return True
-    if k == "empty":
-        return False
-    if k == "not":
-        return not _ref(tree[1], v)
-    if k == "and":
-        return _ref(tree[1], v) and _ref(tree[2], v)
-    return _ref(tree[1], v) or _ref(tree[2], v)
+        r = _leaf_ref(tree[1], v)
+    elif k in ("any", "rany"):
+        r = True
+    elif k == "empty":
+        r = False
+    elif k == "not":
+        r = not _ref(tree[1], v, memo)
+    elif k == "and":
+        r = _ref(tree[1], v, memo) and _ref(tree[2], v, memo)
+    else:
+        r = _ref(tree[1], v, memo) or _ref(tree[2], v, memo)
+    if memo is not None:
+        memo[key] = r
+    return r
+
+
+def _exact_bounds(tree) -> list[Version]:
+    """The final releases that occur literally as operands of the leaves."""
+    out = set()
+    for leaf in W.tree_leaves(tree):
+        for part in leaf.replace("||", ",").split(","):
+            p = part.strip().lstrip("<>=!~ ").rstrip("*").rstrip(".")
+            try:
+                v = Version(p)
+            except InvalidVersion:
+                continue
+            if not (v.is_prerelease or v.is_postrelease or v.local):
+                out.add(v)
+    return sorted(out)
 
 
 def _case(ctx, arbitrary=False):
@@ -127,9 +158,21 @@ def _case(ctx, arbitrary=False):
     def per_case(tree, pool):
         cands = candidates(tree)
         text = W.tree_text(tree)
+        size = W.tree_size(tree)
+        big = size > 60
+        memo: dict = {}
+        if big:
+            # large trees: every literal bound stays a candidate, the derived neighbours are sampled, and
+            # only the upper nodes (unions of many ranges) are probed
+            exact = _exact_bounds(tree)
+            rest = [c for c in cands if c not in set(exact)]
+            cands = sorted(set(exact[:: max(1, len(exact) // 160)] + ctx.rnd.sample(rest, min(len(rest), 80))))
+            ctx.shape("workload:large-tree-membership")
 
         def on_node(t, value, kids):
-            has_arb = "===" in W.tree_text(t)
+            if big and t is not tree and W.tree_size(t) < size // 4:
+                return
+            has_arb = "===" in (text if t is tree else W.tree_text(t))
             if has_arb:
                 bump("arbitrary-node")
                 ctx.shape("arbitrary:returned")
@@ -137,7 +180,7 @@ def _case(ctx, arbitrary=False):
                 isinstance(value, S.RangeSpecifier) and value.is_any())
             cs = cands + ([Version("1.0"), Version("1.0.0")] if has_arb else [])
             for v in cs:
-                exp = _ref(t, v)
+                exp = _ref(t, v, memo)
                 ctx.evaluations += 1
                 bump("node-membership")
                 for how in ("in", "contains"):
@@ -170,9 +213,9 @@ def run(ctx):
         from ..repotests import run_repo_tests
 
         run_repo_tests(ctx, ("specifier", "marker"))
-    run_trees(ctx, _case(ctx), depth=(0, 3), scale=0.25, hostile_p=0.15)
+    run_trees(ctx, _case(ctx), depth=(0, 3), scale=0.25, hostile_p=0.15, large=(2, 24, 50))
     ctx.extra["arbitrary_stratum_from_case"] = ctx.cases
-    run_trees(ctx, _case(ctx, arbitrary=True), depth=(1, 3), arbitrary=True, scale=0.1, hostile_p=0.1)
+    run_trees(ctx, _case(ctx, arbitrary=True), depth=(1, 3), arbitrary=True, scale=0.1, hostile_p=0.1, large=None)
 
 
 def replay(ctx, case):
